@@ -340,6 +340,38 @@ pub fn requests() -> Vec<(String, Vec<u8>)> {
 	for (n, nm) in names() {
 		out.push((format!("subject/{}", n), sign(&nm, &vec![0xa0, 0x00], 0)));
 	}
+	// the outer signatureAlgorithm spelled in every way a reader may meet: identifiers the
+	// verifier does not know (short, long, with components beyond 64 and 128 bits, with a
+	// non-minimal sub-identifier), an identifier of another key family, parameters present /
+	// NULL / a SEQUENCE, an empty AlgorithmIdentifier — around the same signed content
+	{
+		let info = tlv(0x30, &cat(&[vec![0x02, 0x01, 0x00], name.clone(), spki.clone(), vec![0xa0, 0x00]]));
+		let sig = kp.sign(&info);
+		let sigbits = tlv(0x03, &cat(&[vec![0u8], sig.as_ref().to_vec()]));
+		let big = |n: usize| { let mut c = vec![0x2a, 0x03]; c.extend(std::iter::repeat(0xff).take(n)); c.push(0x7f); c };
+		let algs: Vec<(&str, Vec<u8>)> = vec![
+			("unknown-short", tlv(0x30, &oid(&[0x2a, 0x03]))),
+			("unknown-long", tlv(0x30, &oid(&[0x2a, 0x86, 0x48, 0x86, 0xf7, 0x0d, 0x01, 0x01, 0x7f, 0x01, 0x02, 0x03]))),
+			("component-70-bits", tlv(0x30, &oid(&big(9)))),
+			("component-140-bits", tlv(0x30, &oid(&big(19)))),
+			("component-2000-bits", tlv(0x30, &oid(&big(285)))),
+			("non-minimal-sub-identifier", tlv(0x30, &oid(&[0x2a, 0x80, 0x03]))),
+			("oid-empty", tlv(0x30, &oid(&[]))),
+			("oid-truncated-sub-identifier", tlv(0x30, &oid(&[0x2a, 0x86]))),
+			("ecdsa-sha256", tlv(0x30, &oid(&[0x2a, 0x86, 0x48, 0xce, 0x3d, 0x04, 0x03, 0x02]))),
+			("ecdsa-sha512", tlv(0x30, &oid(&[0x2a, 0x86, 0x48, 0xce, 0x3d, 0x04, 0x03, 0x04]))),
+			("rsa-sha256-null", tlv(0x30, &cat(&[oid(&[0x2a, 0x86, 0x48, 0x86, 0xf7, 0x0d, 0x01, 0x01, 0x0b]), vec![0x05, 0x00]]))),
+			("rsa-pss", tlv(0x30, &cat(&[oid(&[0x2a, 0x86, 0x48, 0x86, 0xf7, 0x0d, 0x01, 0x01, 0x0a]), tlv(0x30, &[])]))),
+			("ed25519-null-parameters", tlv(0x30, &cat(&[oid(&[0x2b, 0x65, 0x70]), vec![0x05, 0x00]]))),
+			("ed25519-sequence-parameters", tlv(0x30, &cat(&[oid(&[0x2b, 0x65, 0x70]), tlv(0x30, &[])]))),
+			("ed448", tlv(0x30, &oid(&[0x2b, 0x65, 0x71]))),
+			("empty-algorithm-identifier", tlv(0x30, &[])),
+			("algorithm-identifier-is-an-oid", oid(&[0x2b, 0x65, 0x70])),
+		];
+		for (n, a) in algs {
+			out.push((format!("signature-algorithm/{}", n), tlv(0x30, &cat(&[info.clone(), a, sigbits.clone()]))));
+		}
+	}
 	out.push(("version/1".into(), sign(&name, &vec![0xa0, 0x00], 1)));
 	out.push(("attributes/absent".into(), sign(&name, &vec![], 0)));
 	out.push(("attributes/empty-set-value".into(), sign(&name, &tlv(0xa0, &tlv(0x30, &cat(&[ext_req.clone(), tlv(0x31, &[])]))), 0)));
